@@ -23,8 +23,11 @@
 (*             group stated twice, every fourth with one member all-LOOSE and the other all-STRICT, in both   *)
 (*             orders of the vector); triples: one group of three; overlaps: two groups sharing one request,  *)
 (*             the shared request first / last / in between in the vectors, one group nested in the other, or *)
-(*             a triangle of pairs {1,2} {1,3} {2,3};                                                         *)
+(*             a triangle of pairs {1,2} {1,3} {2,3}, or near-twins (same request, STRICT / LOOSE) each       *)
+(*             disjoint from a third request;                                                                 *)
 (*             every other seeded group request gets LOOSE hops naming elements that do not exist (0..2)      *)
+(* A second family of graphs, MCGridGraphs (cfg: Graphs <- MCGridGraphs, BatchesOf <- MCGridBatchesOf), are   *)
+(* rows x GridCols lattices with single requests whose include lists of 2 or 3 ROADMs force long detours.     *)
 (* With GroupsExhaustive the pairs are ALL pairs of requests with include lists of <= 1 ROADM (used with      *)
 (* NSites = 3); otherwise groups are seeded draws (a small linear congruential generator written in TLA+).    *)
 EXTENDS RoutingModel, Json, RoutingSample
@@ -37,6 +40,7 @@ CONSTANTS NSites,            \* number of ROADM sites
           GroupsExhaustive,  \* TRUE: all pairs of requests with <= 1 ROADM include each
           Doubling,          \* TRUE: (not UseSample) also the meshes with one doubled pair of sites
           PairsFirstAll,     \* FALSE: exhaustive pairs without the first requests whose include is their own end point
+          GridCols,          \* columns of the lattice meshes (MCGridGraphs: NSites = rows x GridCols), 0 elsewhere
           Salt               \* seed of the draws
 
 Nodes  == 1..NSites
@@ -115,12 +119,27 @@ Fork(G, s, x1, x2, x3) ==
                         a3 == o3[((x3 \div 2) % Len(o3)) + 1]
                     IN  IF x3 % 2 = 0 \/ a3 = Opposite(a1) \/ a3 = Opposite(a2) THEN <<LineEl(a1), LineEl(a2)>>
                         ELSE <<LineEl(a1), LineEl(a2), LineEl(a3)>>
+\* shape 11: three ROADMs taken, in order, from one of the routes with the most hops between the two end points - an
+\* include list that can be met, but only by a long detour (a snake on a lattice)
+Snake(G, sd, x1, x2) ==
+  LET P    == SimplePaths(G, sd[1], sd[2])
+      most == SetMax({Len(p) : p \in P})
+      cand == {p \in P : Len(p) >= most - 1}
+      H(p) == (CodeOf(SitesOf(p)) * 31 + x1 * 977) % 65521
+      p    == CHOOSE q \in cand : \A r \in cand : H(q) <= H(r)
+      v    == SitesOf(p)
+      m    == Len(v) - 2                                \* intermediate sites
+  IN  IF P = {} \/ m < 3 THEN <<>>
+      ELSE LET i1 == 2 + (x2 % (m \div 3))
+               i2 == 2 + (m \div 3) + ((x2 \div 7) % (m \div 3))
+               i3 == 2 + 2 * (m \div 3) + ((x2 \div 49) % (m \div 3))
+           IN  <<v[i1], v[i2], v[i3]>>
 RndInc(G, sd, shape, x1, x2, x3) ==
   LET arcs == ArcSeq(G)
       L(x) == LineEl(arcs[(x % Len(arcs)) + 1])
       n1   == (x1 % NSites) + 1
       n2   == ((n1 + (x2 % (NSites - 1))) % NSites) + 1
-      sh   == IF Len(arcs) = 0 /\ shape \in {3, 5, 6, 7, 8, 9} THEN 2 ELSE shape
+      sh   == IF Len(arcs) = 0 /\ shape \in {3, 5, 6, 7, 8, 9} THEN 2 ELSE IF shape = 10 /\ NSites < 3 THEN 4 ELSE shape
   IN  CASE sh \in {0, 1} -> <<>>
         [] sh = 2 -> <<n1>>
         [] sh = 3 -> <<L(x1)>>
@@ -130,6 +149,9 @@ RndInc(G, sd, shape, x1, x2, x3) ==
         [] sh = 7 -> IF L(x1) = L(x2) THEN <<L(x1)>> ELSE <<L(x1), L(x2)>>
         [] sh = 8 -> Walk3(G, sd[1], x1, x2, x3)
         [] sh = 9 -> Fork(G, sd[1], x1, x2, x3)
+        [] sh = 11 -> Snake(G, sd, x1, x2)
+        [] sh = 10 -> LET rest == SelectSeq([v \in 1..NSites |-> v], LAMBDA v : v # n1 /\ v # n2)      \* three ROADMs
+                      IN  <<n1, n2, rest[(x3 % Len(rest)) + 1]>>
 \* (a walk or a fork is aimed at the site it ends in, every other time, so that it is an explicit route)
 RndReq(G, seed, shapes) ==
   LET sd  == OrdPairs[(Rnd(seed, 1) % Len(OrdPairs)) + 1]
@@ -179,15 +201,20 @@ Triples(G) == {LET r1 == RndReq(G, Seed(G.id, k, 6), GroupShapes)
 Overlaps(G) == {LET r1 == RndReq(G, Seed(G.id, k, 9), GroupShapes)
                     r2 == RndMate(G, r1, Seed(G.id, k, 10), GroupShapes)
                     r3 == RndMate(G, r1, Seed(G.id, k, 11), GroupShapes)
-                IN  Batch(<<r1, r2, Haunt(r3, Seed(G.id, k, 11), k)>>,
-                          CASE k % 8 = 0 -> <<<<1, 2>>, <<2, 3>>>>      \* shared: last, then first
-                            [] k % 8 = 1 -> <<<<1, 2>>, <<1, 3>>>>      \* shared: first in both
-                            [] k % 8 = 2 -> <<<<2, 1>>, <<3, 1>>>>      \* shared: last in both
-                            [] k % 8 = 3 -> <<<<1, 3>>, <<2, 1>>>>
-                            [] k % 8 = 4 -> <<<<1, 2, 3>>, <<2, 3>>>>   \* nested: the larger first
-                            [] k % 8 = 5 -> <<<<1, 2>>, <<3, 1, 2>>>>
-                            [] k % 8 = 6 -> <<<<1, 2>>, <<1, 3>>, <<2, 3>>>>   \* triangle of pairs: the last vector only
-                            [] OTHER     -> <<<<2, 3>>, <<1, 2>>, <<3, 1>>>>)  \* holds requests the others routed
+                    q  == RndReq(G, Seed(G.id, k, 9), IncShapes)                \* near-twins, each disjoint from a third
+                    q3 == RndMate(G, q, Seed(G.id, k, 11), GroupShapes)
+                    v  == k % 10
+                IN  IF v = 8 THEN Batch(<<Relabel(q, 1), Relabel(q, 0), q3>>, <<<<1, 3>>, <<2, 3>>>>)
+                    ELSE IF v = 9 THEN Batch(<<Relabel(q, 0), Relabel(q, 1), q3>>, <<<<1, 3>>, <<2, 3>>>>)
+                    ELSE Batch(<<r1, r2, Haunt(r3, Seed(G.id, k, 11), k)>>,
+                               CASE v = 0 -> <<<<1, 2>>, <<2, 3>>>>      \* shared: last, then first
+                                 [] v = 1 -> <<<<1, 2>>, <<1, 3>>>>      \* shared: first in both
+                                 [] v = 2 -> <<<<2, 1>>, <<3, 1>>>>      \* shared: last in both
+                                 [] v = 3 -> <<<<1, 3>>, <<2, 1>>>>
+                                 [] v = 4 -> <<<<1, 2, 3>>, <<2, 3>>>>   \* nested: the larger first
+                                 [] v = 5 -> <<<<1, 2>>, <<3, 1, 2>>>>
+                                 [] v = 6 -> <<<<1, 2>>, <<1, 3>>, <<2, 3>>>>   \* triangle of pairs: the last vector only
+                                 [] OTHER -> <<<<2, 3>>, <<1, 2>>, <<3, 1>>>>)  \* holds requests the others routed
                  : k \in 1..OverlapPer}
 
 \* ---- exhaustive pairs (small NSites): all end points, include lists of <= 1 ROADM, both labels
@@ -196,6 +223,28 @@ SmallReqs == UNION {{Rq(sd[1], sd[2], <<>>, <<>>)} \cup {Rq(sd[1], sd[2], <<n>>,
 \* (the first request runs from site 1 to site 2: every other choice is a relabelling of the sites)
 AllPairs(G) == {Batch(<<r1, r2>>, <<<<1, 2>>>>) : r1 \in {r \in SmallReqs : r.s = 1 /\ r.d = 2 /\ (PairsFirstAll \/ r.inc \notin {<<1>>, <<2>>})},
                                                     r2 \in SmallReqs}
+
+\* ---- lattice meshes (rows x GridCols ROADMs, neighbours linked by 50 or 140 km, drawn from the mesh id): large
+\*      enough for more than a hundred loop-free routes to be shorter than the best one that meets an include list
+\*      of two or three ROADMs - the snake-shaped routes
+GridGraph(m) ==
+  LET row(a) == (a - 1) \div GridCols
+      col(a) == (a - 1) % GridCols
+      near(a, b) == (row(a) = row(b) /\ AbsI(col(a) - col(b)) = 1) \/ (col(a) = col(b) /\ AbsI(row(a) - row(b)) = 1)
+      arcs == {<<x[1], x[2], 0>> : x \in {y \in Nodes \X Nodes : near(y[1], y[2])}}
+  IN  [id |-> m, n |-> NSites, arcs |-> arcs,
+       len |-> [a \in arcs |-> LinkKm[2 + (Rnd(m * 37 + MinI(a[1], a[2]) * NSites + MaxI(a[1], a[2]), 2) % 2)]]]
+MCGridGraphs == {GridGraph(m) : m \in SampleMeshIds}
+GridShapes == <<4, 10, 11, 11, 11>>
+\* requests run between two corners of the lattice (the pairs with the most routes); all hops of a list STRICT, or
+\* all LOOSE: the verdict is then always decided
+GridReq(G, seed, k) ==
+  LET corners == <<1, GridCols, NSites - GridCols + 1, NSites>>
+      s   == corners[(Rnd(seed, 1) % 4) + 1]
+      d   == SelectSeq(corners, LAMBDA v : v # s)[(Rnd(seed, 9) % 3) + 1]
+      inc == RndInc(G, <<s, d>>, GridShapes[(k % Len(GridShapes)) + 1], Rnd(seed, 3), Rnd(seed, 4), Rnd(seed, 8))
+  IN  Rq(s, d, inc, [j \in 1..Len(inc) |-> 0])
+MCGridBatchesOf(G) == {Batch(<<Relabel(GridReq(G, Seed(G.id, k, 12), k), (k \div 5) % 2)>>, <<>>) : k \in 1..LinePer}
 
 MCBatchesOf(G) == Singles(G) \cup Lines(G) \cup Twins(G) \cup Triples(G) \cup Overlaps(G)
                   \cup (IF GroupsExhaustive THEN AllPairs(G) ELSE Pairs(G))
@@ -237,6 +286,8 @@ Info ==
   [verdict |-> [i \in Idx |-> IF i \in Free THEN fx[i].v ELSE "GROUPED"],
    npaths  |-> [i \in Idx |-> Cardinality(fx[i].P)],
    best    |-> [i \in Idx |-> fx[i].min],
+   \* how many loop-free routes are shorter than the one the request must get (the candidates a search has to pass)
+   shorter |-> [i \in Idx |-> IF fx[i].v = "ROUTED" THEN Cardinality({p \in fx[i].P : PathLen(g, p) < fx[i].min}) ELSE 0],
    strong  |-> IF batch.groups = <<>> THEN 0 ELSE IF Solutions(g, CleanBatch(batch), fx, "strong", TRUE) # {} THEN 1 ELSE 0,
    weak    |-> IF batch.groups = <<>> THEN 0 ELSE IF Solutions(g, CleanBatch(batch), fx, "weak", FALSE) # {} THEN 1 ELSE 0]
 \* the diversity a synchronisation vector asks for in the service file: every kind that implies link diversity
